@@ -11,3 +11,4 @@ open IQE.Props.C18
 #print axioms C18_ndv_le_rows
 #print axioms C18_statsless_keeps_minmax_unsound
 #print axioms C18_ndv_range_overflow_panics
+#print axioms C18_unsigned_as_signed_unsound
